@@ -40,8 +40,11 @@ TMade == /\ l <= Len(Log) /\ Ev.op = "Made"
 TScan == /\ l <= Len(Log) /\ Ev.op = "Scan" /\ Ev.hits = 0
          /\ UNCHANGED << seen, draws >> /\ l' = l + 1
 
+\* (drift, not a verdict) does each recomputed blinding equal the draw Rng.tla assigns to its slot?
+TSlots == /\ l <= Len(Log) /\ Ev.op = "Slots" /\ UNCHANGED << seen, draws >> /\ l' = l + 1
+
 TraceInit == l = 1 /\ seen = {} /\ draws = {}
-TraceNext == TDraw \/ TMade \/ TScan
+TraceNext == TDraw \/ TMade \/ TScan \/ TSlots
 
 \* every value ever accepted is unique: the size of the state equals the number of values consumed
 TraceAccepted ==
